@@ -151,10 +151,22 @@ def known_findings():
         return json.load(f).get("findings", [])
 
 
+WB_FALLBACK = []  # (pkg, test) runs that had to drop the white-box fast paths
+
+
 def go_test(ov, pkg, test, env, timeout_s, extra_args=()):
-    cmd = ["go", "test", "-tags", "verif", "-overlay", ov, "-vet=off", "-count=1",
-           "-timeout", "%ds" % timeout_s, "-run", "^%s$" % test, *extra_args, pkg]
-    return subprocess.run(cmd, cwd=REPO, env=env, stdout=subprocess.PIPE, stderr=subprocess.STDOUT, text=True)
+    # verif_wb enables optional white-box fast paths of the harnesses (files that call unexported
+    # helpers only for speed). If the tree was refactored so that they no longer compile, the build is
+    # retried without them: every such file has a !verif_wb twin that uses the ordinary entry points.
+    for tags in ("verif,verif_wb", "verif"):
+        cmd = ["go", "test", "-tags", tags, "-overlay", ov, "-vet=off", "-count=1",
+               "-timeout", "%ds" % timeout_s, "-run", "^%s$" % test, *extra_args, pkg]
+        p = subprocess.run(cmd, cwd=REPO, env=env, stdout=subprocess.PIPE, stderr=subprocess.STDOUT, text=True)
+        if tags == "verif" or "[build failed]" not in p.stdout:
+            break
+        WB_FALLBACK.append((pkg, test))
+        sys.stderr.write("note: %s does not build with the white-box fast paths (verif_wb); retrying without them\n" % pkg)
+    return p
 
 
 def run_check(pid, tier, replay_case=None, quiet=False):
@@ -291,6 +303,8 @@ def run_check(pid, tier, replay_case=None, quiet=False):
         "known_findings_seen": sorted(listed.keys()),
         "known_finding_matches": {k: sorted(v) for k, v in matched.items()},
     }
+    if WB_FALLBACK:
+        cov.setdefault("notes", []).append("white-box fast paths (build tag verif_wb) did not compile against this tree; ran through the ordinary entry points: %s" % sorted(set(WB_FALLBACK)))
     if replay_case is None and REPO == "/repo":
         os.makedirs(os.path.join(VERIF, "evidence"), exist_ok=True)
         with open(os.path.join(VERIF, "evidence", pid + ".json"), "w") as f:
@@ -324,7 +338,7 @@ def setup():
         return 2
     env = goenv()
     pkgs = sorted({c["pkg"] for c in checks().values()} | {p["pkg"] for c in checks().values() for p in c.get("parts", [])})
-    cmd = ["go", "test", "-tags", "verif", "-overlay", ov, "-vet=off", "-count=1", "-run", "^$", *pkgs]
+    cmd = ["go", "test", "-tags", "verif,verif_wb", "-overlay", ov, "-vet=off", "-count=1", "-run", "^$", *pkgs]
     p = subprocess.run(cmd, cwd=REPO, env=env)
     return 0 if p.returncode == 0 else 2
 
